@@ -15,7 +15,7 @@ from fickling.fickle import Interpreter, Pickled
 
 from vf import rt
 from vf.engine import Lemma
-from vf.refvm import (BUILTIN_FAMILY, LoggingVM, canon, exec_decompiled, make_world, missing_events, strip_ids)
+from vf.refvm import (BUILTIN_FAMILY, LoggingVM, canon, exec_decompiled, make_world, missing_events, strip_ids, vcanon)
 from vf.symlib import HList, SymStream, concretize, native, pin
 
 PROPERTY = "C03"
@@ -110,8 +110,8 @@ def _compare(src, log_v, v_res):
     missing = missing_events([strip_ids(e) for e in vm_events], [strip_ids(e) for e in log_d])
     if missing:
         return "EVENTS", "missing %r | %r" % (dict(missing), src)
-    if strip_ids(canon(v_res)) != strip_ids(canon(env.get("result"))):
-        return "VALUE", "vm %r != decompiled %r | %r" % (strip_ids(canon(v_res)), strip_ids(canon(env.get("result"))), src)
+    if vcanon(v_res) != vcanon(env.get("result")):
+        return "VALUE", "vm %r != decompiled %r | %r" % (vcanon(v_res), vcanon(env.get("result")), src)
     return "ok", None
 
 
